@@ -229,6 +229,40 @@ def register(cat, simple, binary, with_scalar, _perm, _dims_subset, gen_ttm, run
             return None
         return {"operands": [r, rhs], "dim": d, "index": i}
 
+    def gen_S_setitem_block(c, r):
+        # S[a:b, c:d, ...] = another sparse tensor that fits somewhere inside (offset slices, or an index list)
+        sh = tuple(c.obj(r).shape)
+        n = len(sh)
+        rhs = c.pick("S", lambda o: o.ndims == n and all(x <= y for x, y in zip(o.shape, sh)) and tuple(o.shape) != sh, exclude=(r,))
+        if rhs is None or c.g.random() < 0.5:
+            # a fresh right-hand side of a smaller shape
+            rs = tuple(c.g.randint(1, x) for x in sh)
+            if rs == sh:
+                return None
+            rhs = c._next
+            c._next += 1
+            st = c.cat.step_new_sptensor(c.g, list(rs))
+            st["out"] = [rhs]
+            c.pre.append(st)
+            c.pending_kinds[rhs] = "S"
+        else:
+            rs = tuple(c.obj(rhs).shape)
+        key = []
+        for d in range(n):
+            a = c.g.randint(0, sh[d] - rs[d])
+            if c.g.random() < 0.25 and rs[d] >= 1:
+                key.append(c.g.sample(range(sh[d]), rs[d]))
+            else:
+                key.append(enc(slice(a, a + rs[d], None)))
+        return {"operands": [r, rhs], "key": key}
+
+    def run_S_setitem_block(eng, ops, st):
+        key = tuple(dec(k) if isinstance(k, dict) else k for k in st["key"])
+        ops[0][key] = ops[1]
+        return ops[0]
+
+    op("S.setitem_block", "S", gen_S_setitem_block, run_S_setitem_block, inplace=True, weight=0.6)
+
     def run_S_setitem_region(eng, ops, st):
         key = [slice(None, None, None)] * ops[0].ndims
         key[st["dim"]] = st["index"]
